@@ -200,6 +200,16 @@ def grids(rng, rows, cols, lo, hi, kind="random"):
     """Per-pixel interval grids with lo <= min <= max <= hi."""
     if kind == "constant":
         return np.full((rows, cols), lo, np.float32), np.full((rows, cols), hi, np.float32)
+    if kind in ("band", "pointvar"):
+        # intervals of identical width whose position varies from pixel to pixel (centre +- r, or min == max)
+        r = 0 if kind == "pointvar" or hi - lo < 2 else int(rng.integers(1, max(2, (hi - lo) // 2 + 1)))
+        centre = rng.integers(lo + r, hi - r + 1, (rows, cols))
+        if rng.random() < 0.5:
+            centre[:] = np.sort(centre, axis=1)  # smooth-ish field
+        gmin, gmax = centre - r, centre + r
+        gmin.flat[0], gmax.flat[0] = lo, lo + 2 * r
+        gmin.flat[-1], gmax.flat[-1] = hi - 2 * r, hi
+        return gmin.astype(np.float32), gmax.astype(np.float32)
     a = rng.integers(lo, hi + 1, (rows, cols))
     b = rng.integers(lo, hi + 1, (rows, cols))
     gmin, gmax = np.minimum(a, b), np.maximum(a, b)
